@@ -250,18 +250,21 @@ theorem intOctets_minimal (z : Int) : MinimalTwos (intOctets z) := by
 /-! ### primitive kinds -/
 
 /-- the doubles that `asn_double2REAL`/`asn_REAL2double` carry through bit for bit
-    (C16: every normal double, ±0, ±∞; NaN payloads and subnormals are excluded, F1) -/
+    (C16: every double that is not a NaN — normal, subnormal, ±0, ±∞; NaN payloads are not preserved) -/
 def RealOk (b : Nat) : Prop :=
-  b < 2 ^ 64 ∧ (Asn1c.Spec.f64IsNormal b ∨ Asn1c.Spec.f64IsZero b ∨ Asn1c.Spec.f64IsInf b)
+  b < 2 ^ 64 ∧ ¬ Asn1c.Spec.f64IsNaN b
 
 instance (b : Nat) : Decidable (RealOk b) := by unfold RealOk; infer_instance
 
 theorem real_roundtrip (b : Nat) (h : RealOk b) :
-    Asn1c.Impl.Real.REAL2double (Asn1c.Impl.Real.double2REAL b) = .ok b := by
-  obtain ⟨hb, hn | hz | hi⟩ := h
-  · exact Asn1c.Props.C16.REAL2double_double2REAL b hb hn
-  · exact (Asn1c.Props.C16.REAL2double_double2REAL_special b hb).1 (Or.inl hz)
-  · exact (Asn1c.Props.C16.REAL2double_double2REAL_special b hb).1 (Or.inr hi)
+    Asn1c.Impl.Real.REAL2double (Asn1c.Impl.Real.double2REAL b) = .ok b :=
+  Asn1c.Props.C16.REAL2double_double2REAL b h.1 h.2
+
+/-- the REAL contents written by the reference codecs (`Impl.Real.double2REAL`, shared by L2/Der, L2/Oer
+    and L2/Uper) are the X.690 DER contents (§8.5 + §11.3.1) of the double, for every bit pattern -/
+theorem primContent_real_eq_derReal (b : Nat) :
+    primContent .real (.real b) = some (Asn1c.Spec.derReal b) := by
+  simp only [primContent, Asn1c.Props.C16.double2REAL_eq_derReal]
 
 /-- canonical abstract values of the primitive kinds -/
 def canonPrim : Prim → Val → Bool
